@@ -9,7 +9,7 @@ from .. import impl
 ID = 'C01'
 LEVEL = 'exploration'
 RULE = ('all formulas of the stated fragments (<=k operators over the operator/interval/atom alphabets, chains, '
-        'arithmetic terms) x all traces up to the stated length over the value alphabet, each evaluated by the real '
+        'arithmetic terms; deep, wide, long and large-magnitude layers) x all traces up to the stated length over the value alphabet, each evaluated by the real '
         'offline monitor and compared with the reference rho; a case is non-trivial when the reference output is '
         'not constant +-inf and differs from the output of every direct operand (the top operator mattered); '
         'cases are distinct by construction (each (formula, trace) pair is enumerated once)')
@@ -65,6 +65,14 @@ def _formula_sets(tier):
     # Long: the fixed family of long traces (periodic / spike / step, 40 samples) for the deep and wide formulas
     lf = [f for f in (deep[::3] if quick else deep) + wide]
     sets.append(('Long', lf, F.V3, 40))
+    # Big: sample values of magnitude 1e9 that differ by one unit (every result exactly representable; compared exactly)
+    big = 1e9
+    sb = ('+', F.X, F.Y)
+    pb = ('pred', '<=', sb, ('const', 2 * big + 1.5))
+    bigf = [f for f in F.F(1, F.unary_ops(Iq), F.binary_ops(Iq), [(F.X, F.Y, F.X)])] + [sb, pb, ('-', F.X, F.Y), ('pred', '>=', F.X, F.Y),
+            ('once', (0, 1), pb), ('always', (1, 2), sb), ('since', None, pb, ('pred', '>', F.Y, F.C0)), ('pred', '==', F.X, F.Y),
+            ('pred', '!==', sb, ('const', 2 * big)), ('abs', ('-', F.Y, F.X)), ('rise', pb), ('prev', sb), ('until', (0, 1), F.X, sb)]
+    sets.append(('Big', bigf, (big, big + 1.0, big + 2.0), 3))
     # S5: temporal operators directly over arithmetic terms and bare variables, three variables (one unused)
     sets.append(('Unused', [('once', (0, 1), ('-', F.X, F.Y)), ('always', (1, 2), ('neg', F.X)), ('until', None, F.X, ('abs', F.Y))],
                  F.V2, 3))
@@ -80,7 +88,7 @@ def shards(tier):
     return out
 
 
-def _values_ok(out, ref, times):
+def _values_ok(out, ref, times, exact=False):
     if not isinstance(out, list) or len(out) != len(ref):
         return 'result has %s entries for %d samples' % (len(out) if isinstance(out, list) else type(out), len(ref))
     for i, (p, r) in enumerate(zip(out, ref)):
@@ -88,7 +96,7 @@ def _values_ok(out, ref, times):
             return 'entry %d is not a [time, value] pair: %r' % (i, p)
         if p[0] != times[i]:
             return 'entry %d carries time-stamp %r, supplied %r' % (i, p[0], times[i])
-        if not refsem.same(p[1], r):
+        if not (p[1] == r if exact and p[1] is not None else refsem.same(p[1], r)):
             return 'value at sample %d is %r, reference rho is %r' % (i, p[1], r)
     return None
 
@@ -109,7 +117,7 @@ def check_case(case, spec=None):
     kind, val = impl.outcome(impl.dt_evaluate, spec, w, case['times'])
     if kind != 'ok':
         return 'evaluate() raised %s' % (val,)
-    return _values_ok(val, ref, case['times'])
+    return _values_ok(val, ref, case['times'], exact=bool(case.get('exact')))
 
 
 def run_shard(shard, tier, res):
@@ -140,6 +148,8 @@ def run_shard(shard, tier, res):
                 w = F.trace_dict(t, decl)
                 times = TIMECOLS[ti % 3](len(t))
                 case = {'formula': fj, 'spec': text, 'vars': decl, 'combined': combined, 'trace': w, 'times': times}
+                if shard['tag'] == 'Big':
+                    case['exact'] = True
                 res.evaluations += 1
                 msg = check_case(case, spec)
                 try:
